@@ -115,24 +115,29 @@ UNITS.append(Unit('out.fd.write', ('@_ZN4CDNS6WriterIiE5writeEPKcm', None), cont
                   setup='  static struct Writer_i32 obj; static char data[4096]; unsigned long a_n; __CPROVER_assume(a_n <= 4096);\n  g_lost = 0;\n',
                   args=['&obj', 'data', 'a_n'], props=['C16'], timeout=300, post='  if (g_exc != 0) { CANARY("failure reachable"); }',
                   note='a rejected or short ::write raises CborOutputException; normal return iff every byte was accepted (sizes < 2^31: the result is compared as int)'))
+PART_LIT = '31338177036UL'   # identity the lowering gives the literal ".part" (crc32 of its spelling + length)
+NAME_INV = "(!g_f_open || (g_f_base == __CPROVER_uninterpreted_concat($this->m_value.id, $this->m_extension.id) && g_f_path == __CPROVER_uninterpreted_concat(g_f_base, g_f_suffix) && g_f_suffix == PART_LIT))".replace('PART_LIT', PART_LIT)
 WS_CLOSE = '''
-__CPROVER_requires(__CPROVER_w_ok($this, sizeof(*$this)) && g_exc == 0 && !g_f_order_bad && !g_f_renamed && $this->m_out.open_ == g_f_open)
-__CPROVER_assigns($this->m_out, g_f_open, g_f_flushed, g_f_renamed, g_f_order_bad, g_f_nrename, g_exc)
-__CPROVER_ensures(g_exc == 0 && !g_f_order_bad && !g_f_open)
+__CPROVER_requires(__CPROVER_w_ok($this, sizeof(*$this)) && g_exc == 0 && !g_f_order_bad && !g_f_renamed && $this->m_out.open_ == g_f_open && !g_f_name_bad)
+__CPROVER_requires(''' + NAME_INV + ''')
+__CPROVER_assigns($this->m_out, g_f_open, g_f_flushed, g_f_renamed, g_f_order_bad, g_f_nrename, g_f_name_bad, g_cc, g_exc)
+__CPROVER_ensures(g_exc == 0 && !g_f_order_bad && !g_f_open && !g_f_name_bad)
 __CPROVER_ensures(@O0 ==> g_f_renamed)
 __CPROVER_ensures(!@O0 ==> !g_f_renamed)
 '''
 UNITS.append(Unit('out.file.close', ('@_ZN4CDNS6WriterINSt7__cxx1112basic_stringIcSt11char_traitsIcESaIcEEEE5closeEv', None), contract=WS_CLOSE, prelude=P, opaque={'std::basic_ofstream': 'struct ofstream', 'std::basic_ostream': 'struct ofstream', 'std::basic_ios': 'struct ofstream', 'std::ios_base': 'struct ofstream'},
                   ghost=[('_Bool', 'O0', 'g_f_open')], stubs=['ofstream__\\w+', 'lib_rename', 'cstring__\\w+'],
-                  setup='  static struct Writer_str obj;\n  __CPROVER_assume(!g_f_order_bad && !g_f_renamed && obj.m_out.open_ == g_f_open);\n', args=['&obj'],
+                  setup='  static struct Writer_str obj;\n  __CPROVER_assume(!g_f_order_bad && !g_f_renamed && obj.m_out.open_ == g_f_open && !g_f_name_bad && NAME_INV_OBJ);\n', args=['&obj'],
                   props=['C15'], timeout=300,
                   note='the .part file is renamed to its final name only after flush and close of the stream, at most once per open, and not at all if no file is open'))
 WS_OPQ = {'std::type_info': 'struct type_info', 'std::basic_ofstream': 'struct ofstream', 'std::basic_ostream': 'struct ofstream', 'std::basic_ios': 'struct ofstream', 'std::ios_base': 'struct ofstream', 'boost::any': 'struct any'}
 WS_ROT = '''
-__CPROVER_requires(__CPROVER_w_ok($this, sizeof(*$this)) && __CPROVER_r_ok($1, sizeof(*$1)) && g_exc == 0 && !g_f_order_bad && !g_f_renamed && $this->m_out.open_ == g_f_open && g_f_nrename == 0)
-__CPROVER_assigns($this->m_out, $this->m_value, g_f_open, g_f_flushed, g_f_renamed, g_f_order_bad, g_f_nrename, g_exc)
+__CPROVER_requires(__CPROVER_w_ok($this, sizeof(*$this)) && __CPROVER_r_ok($1, sizeof(*$1)) && g_exc == 0 && !g_f_order_bad && !g_f_renamed && $this->m_out.open_ == g_f_open && g_f_nrename == 0 && !g_f_name_bad)
+__CPROVER_requires(''' + NAME_INV + ''')
+__CPROVER_assigns($this->m_out, $this->m_value, g_f_open, g_f_flushed, g_f_renamed, g_f_order_bad, g_f_nrename, g_f_name_bad, g_f_path, g_f_base, g_f_suffix, g_cc, g_exc)
 __CPROVER_ensures(g_exc == 0 || g_exc == EXC_CborOutputException)
-__CPROVER_ensures(!g_f_order_bad)
+__CPROVER_ensures(!g_f_order_bad && !g_f_name_bad)
+__CPROVER_ensures(($1->which == 1 && g_exc == 0) ==> (''' + NAME_INV + ''' && $this->m_value.id == $1->s.id))
 __CPROVER_ensures($1->which == 1 ==> (g_f_nrename == (@O0 ? 1UL : 0UL)))
 __CPROVER_ensures($1->which != 1 ==> (g_f_nrename == 0 && g_f_open == @O0 && g_exc == 0))
 __CPROVER_ensures(($1->which == 1 && g_exc == 0) ==> (g_f_open && $this->m_out.open_ && !g_f_renamed))
@@ -141,25 +146,26 @@ __CPROVER_ensures(($1->which == 1 && g_exc != 0) ==> !g_f_open)
 UNITS.append(Unit('out.file.rotate_output', ('@_ZN4CDNS6WriterINSt7__cxx1112basic_stringIcSt11char_traitsIcESaIcEEEE13rotate_outputERKN5boost3anyE', None), contract=WS_ROT, prelude=P, opaque=WS_OPQ,
                   inline=[('@_ZN4CDNS6WriterINSt7__cxx1112basic_stringIcSt11char_traitsIcESaIcEEEE5closeEv', None), ('@_ZN4CDNS6WriterINSt7__cxx1112basic_stringIcSt11char_traitsIcESaIcEEEE4openEv', None)],
                   ghost=[('_Bool', 'O0', 'g_f_open')], stubs=['ofstream__\\w+', 'lib_rename', 'cstring__\\w+', 'any\\w+', 'typeid__\\w+', 'type_info__\\w+'],
-                  setup='  static struct Writer_str obj; static struct any val;\n  __CPROVER_assume(!g_f_order_bad && !g_f_renamed && obj.m_out.open_ == g_f_open && g_f_nrename == 0);\n', args=['&obj', '&val'],
+                  setup='  static struct Writer_str obj; static struct any val;\n  __CPROVER_assume(!g_f_order_bad && !g_f_renamed && obj.m_out.open_ == g_f_open && g_f_nrename == 0 && !g_f_name_bad && NAME_INV_OBJ);\n', args=['&obj', '&val'],
                   props=['C15'], timeout=300, post='  if (g_exc != 0) { CANARY("open failure reachable"); }',
                   note='rotation of a named file (real close() and open() bodies inlined): the file being closed is flushed and closed before it gets its final name, '
                        'exactly one rename per closed file, none if no file was open; the new .part file is opened afterwards; a failed open raises'))
 WS_DTOR = '''
-__CPROVER_requires(__CPROVER_w_ok($this, sizeof(*$this)) && g_exc == 0 && !g_f_order_bad && !g_f_renamed && $this->m_out.open_ == g_f_open && g_f_nrename == 0)
-__CPROVER_assigns($this->m_out, g_f_open, g_f_flushed, g_f_renamed, g_f_order_bad, g_f_nrename, g_exc)
-__CPROVER_ensures(g_exc == 0 && !g_f_order_bad && !g_f_open && g_f_nrename == (@O0 ? 1UL : 0UL))
+__CPROVER_requires(__CPROVER_w_ok($this, sizeof(*$this)) && g_exc == 0 && !g_f_order_bad && !g_f_renamed && $this->m_out.open_ == g_f_open && g_f_nrename == 0 && !g_f_name_bad)
+__CPROVER_requires(''' + NAME_INV + ''')
+__CPROVER_assigns($this->m_out, g_f_open, g_f_flushed, g_f_renamed, g_f_order_bad, g_f_nrename, g_f_name_bad, g_cc, g_exc)
+__CPROVER_ensures(g_exc == 0 && !g_f_order_bad && !g_f_name_bad && !g_f_open && g_f_nrename == (@O0 ? 1UL : 0UL))
 '''
 UNITS.append(Unit('out.file.dtor', ('@_ZN4CDNS6WriterINSt7__cxx1112basic_stringIcSt11char_traitsIcESaIcEEEED1Ev', None), contract=WS_DTOR, prelude=P, opaque=WS_OPQ,
                   inline=[('@_ZN4CDNS6WriterINSt7__cxx1112basic_stringIcSt11char_traitsIcESaIcEEEE5closeEv', None)],
                   ghost=[('_Bool', 'O0', 'g_f_open')], stubs=['ofstream__\\w+', 'lib_rename', 'cstring__\\w+'],
-                  setup='  static struct Writer_str obj;\n  __CPROVER_assume(!g_f_order_bad && !g_f_renamed && obj.m_out.open_ == g_f_open && g_f_nrename == 0);\n', args=['&obj'],
+                  setup='  static struct Writer_str obj;\n  __CPROVER_assume(!g_f_order_bad && !g_f_renamed && obj.m_out.open_ == g_f_open && g_f_nrename == 0 && !g_f_name_bad && NAME_INV_OBJ);\n', args=['&obj'],
                   props=['C15'], timeout=300,
                   note='destruction of the named-file writer: flush, close, then one rename; never throws'))
 WS_R16 = '''
 __CPROVER_requires(__CPROVER_w_ok($this, sizeof(*$this)) && __CPROVER_r_ok($1, sizeof(*$1)) && g_exc == 0 && !g_f_order_bad && !g_f_renamed && $this->m_out.open_ == g_f_open && g_f_nrename == 0)
 __CPROVER_requires($1->which == 1 && g_f_open && ($this->m_out.failed != 0) == (g_lost != 0))
-__CPROVER_assigns($this->m_out, $this->m_value, g_f_open, g_f_flushed, g_f_renamed, g_f_order_bad, g_f_nrename, g_lost, g_exc)
+__CPROVER_assigns($this->m_out, $this->m_value, g_f_open, g_f_flushed, g_f_renamed, g_f_order_bad, g_f_nrename, g_f_name_bad, g_f_path, g_f_base, g_f_suffix, g_cc, g_lost, g_exc)
 __CPROVER_ensures(@L0 ==> g_exc != 0)
 '''
 UNITS.append(Unit('out.file.rotate_output.c16', ('@_ZN4CDNS6WriterINSt7__cxx1112basic_stringIcSt11char_traitsIcESaIcEEEE13rotate_outputERKN5boost3anyE', None), contract=WS_R16, prelude=P, opaque=WS_OPQ,
@@ -230,3 +236,7 @@ UNITS.append(Unit('out.fd.rotate_output', ('@_ZN4CDNS6WriterIiE13rotate_outputER
                   setup='  static struct Writer_i32 obj; static struct any val;\n  g_closes = 0;\n', args=['&obj', '&val'], props=['C13', 'C16'], timeout=300,
                   post='  if (g_exc != 0) { CANARY("invalid descriptor reachable"); }',
                   note='descriptor output: a value of another type is ignored; otherwise the old descriptor is closed exactly once (never -1), the new one adopted and checked with fstat (an invalid one raises)'))
+
+for _u in UNITS:
+    if isinstance(getattr(_u, 'setup', None), str) and 'NAME_INV_OBJ' in _u.setup:
+        _u.setup = _u.setup.replace('NAME_INV_OBJ', NAME_INV.replace('$this->', 'obj.'))
